@@ -4,7 +4,7 @@ import ast
 from ..cfg import witness, describe_path
 from ..core import AnalysisError, u, walk_local, enclosing_stmt
 from ..lib import (construct, std_facts, def_of, facts_imply, calls_of_node,
-                   in_subtree, terminates_in_raise, facts_at)
+                   in_subtree, terminates_in_raise, facts_at, format_sites)
 from .wrapper import WrapperModel, REQ
 from .common import allowed_stores, fresh_kwarg_defaults, signature_agreement
 
@@ -85,7 +85,8 @@ def run(ctx):
                   and u(ge.elt.left) == u(ge.generators[0].target)
               sl = isinstance(it, ast.Subscript) and u(it.value) == w.A and isinstance(it.slice, ast.Slice) and it.slice.upper is None \
                   and it.slice.lower is not None and w.posnames and u(it.slice.lower) == 'len(%s)' % w.posnames
-              tests = [x for x in g.live_nodes() if x.kind == 'test' and u(x.ast) == fct[1]]
+              tests = [x for x in g.live_nodes() if x.kind == 'test' and
+                       (u(x.ast) == fct[1] or (g.expanded.get(x.id) is not None and u(g.expanded[x.id]) == fct[1]))]
               if cond and sl and tests and witness(g, g.entry.id, [w.call_node.id], avoid=[tests[0].id]) is None:
                 ok = True
   ctx.check(ok, 'C10.vararg', con, 'the marker among unnamed (variadic) positionals raises before anything else is done',
@@ -191,7 +192,10 @@ def run(ctx):
           m2 = []
           for t in tests:
             if any(b == app[0].id for b, k in g.succ[t.id] if k == 'T'):
-              m2 = facts_imply({('c', u(t.ast), False)}, [('every unfilled marker reported', 'pos or kw or bound')], atom)
+              m2 = True
+              for tx in (t.ast, g.expanded.get(t.id), g.expanded_bool.get(t.id)):
+                if tx is not None and m2:
+                  m2 = facts_imply({('c', u(tx), False)}, [('every unfilled marker reported', 'pos or kw or bound')], atom)
           sig_ok = not m1 and not m2
           detail = 'counter-example %s' % ((m1 or m2)[0][1] if (m1 or m2) else '')
   ctx.check(sig_ok, 'C10.complete', con,
@@ -204,8 +208,8 @@ def run(ctx):
     d = def_of(facts[n.id], missing)
     if d and d.startswith('_order_by_signature('):
       okord = True
-  fmt_uses = [c for n in g.live_nodes() for c in calls_of_node(n) if isinstance(c.func, ast.Attribute) and c.func.attr == 'format'
-              and any(u(a) == missing for a in c.args)]
+  fmt_uses = [c for n in g.live_nodes() if n.ast is not None and n.kind in ('stmt', 'raise_stmt', 'return') for c, _t, ops in format_sites(n.ast)
+              if any(u(a) == missing for a in ops)]
   for c in fmt_uses:
     st = enclosing_stmt(c)
     fs = facts_at(g, facts, st) or frozenset()
